@@ -32,7 +32,7 @@ Sys ==
                   OsEv("madvise", r[1], r[2], "DONTNEED", FALSE)} :
           \* the kernel: unmap/protect/advise need mapped memory; a non-fixed map never overlaps an existing one
           /\ (ev.call \in {"munmap", "mprotect", "madvise"} => \E s \in maps : InsideR(ev.a, AddP(ev.a, ev.len), s.a, s.e))
-          /\ OsEvent(ev, L)
+          /\ OsEvent(ev, L, <<>>)
   /\ UNCHANGED <<L, nextB>>
 
 Alloc ==
